@@ -469,7 +469,7 @@ pub fn run(tier: &str) -> i32 {
     let t0 = Instant::now();
     let mut o = Outcome::new("C06", tier, "model_checking");
     o.cov("exhaustive", json!(true));
-    fold_e3(&mut o, "C06", tier, &bodies(tier), "");
+    fold_e3(&mut o, "C06", tier, &crate::e3::with_variants(bodies(tier), tier), "");
     o.cov("rule", json!("for each body (a writer committing batches/transactions over two keyspaces, a reader taking a snapshot and reading the touched keys or doing one scan, and a third party: fjall's own worker flushing another keyspace, an insert/clear/ingest/delete/create of another keyspace, a rotation) every schedule with at most `preemption_bound` preemptions at the hooked points is executed on the real code; every snapshot/scan must see each batch entirely or not at all and batches of one writer in commit order. states = schedules executed."));
     o.assumptions = vec![
         "calls into lsm-tree are atomic steps of the exploration (trusted base); the scheduling points are fjall-level operations: journal lock, seqno draw, each memtable apply of a batch, publish, snapshot open, worker message handling, flush registration".into(),
@@ -483,7 +483,7 @@ pub fn replay(v: &serde_json::Value) -> i32 {
     let tier = v["variant"]["tier"].as_str().unwrap_or("quick");
     let bi = v["variant"]["body_index"].as_u64().unwrap_or(0) as usize;
     let choices: Vec<usize> = v["variant"]["choices"].as_array().map(|a| a.iter().filter_map(|c| c.as_u64().map(|c| c as usize)).collect()).unwrap_or_default();
-    match bodies(tier).get(bi) {
+    match crate::e3::with_variants(bodies(tier), tier).get(bi) {
         Some(b) => replay_schedule(&*b.body, &choices),
         None => 2,
     }
